@@ -18,6 +18,13 @@ structure St where
   qCollect : Rat := 0           -- VisualSORT collect thresholds (Layer-G decision `collectOk` is taken here)
   minArea : Rat := 0
   ownCollect : Rat := 0
+  vCosine : Bool := false        -- VisualSORT appearance metric: cosine (else Euclidean)
+  vThr : Rat := 0
+  minLen : Nat := 1             -- `visual_minimal_track_length`
+  qUse : Rat := 0               -- use thresholds (Layer-G decision `useOk` is taken here)
+  ownUse : Rat := 0
+  constrained : Bool := false   -- spatio-temporal constraints configured (compatibility then also depends on geometry)
+  featVecs : List (Nat × List Rat) := []   -- feature token ↦ the feature vector of that detection
   desynced : Bool := false      -- after `pipe` (no distance tables): the slot is only good for `cmp`
 
 /-! parsing -/
@@ -216,6 +223,84 @@ def competition (es : List Entry) (thr : Int) : Bool :=
   let gated := es.filter (fun e => decide (thr ≤ e.w))
   gated.any (fun a => gated.any (fun b => a.tid == b.tid && a.det != b.det))
 
+/-- second pass over the detections of a predict request: feature token ↦ feature vector -/
+def scanFeatsDets : Nat → Nat → List String → Option (List (Nat × List Rat) × List String)
+  | 0, _, ts => some ([], ts)
+  | n+1, tok, _xc :: _yc :: _ang :: _asp :: _h :: _conf :: _cu :: _q :: nf :: rest => do
+    let nf ← nf.toNat?
+    if rest.length < nf then none else
+    let vec := (rest.take nf).filterMap rat?
+    let (more, rest') ← scanFeatsDets n (tok + 1) (rest.drop nf)
+    pure ((if nf > 0 then [(tok + 1, vec)] else []) ++ more, rest')
+  | _, _, _ => none
+
+def scanFeats : Nat → Nat → List String → List (Nat × List Rat)
+  | 0, _, _ => []
+  | n+1, tok, sc :: k :: ts =>
+    match k.toNat? with
+    | some k => (match scanFeatsDets k tok ts with
+      | some (fs, rest) => fs ++ scanFeats n (tok + k) rest
+      | none => [])
+    | none => let _ := sc; []
+  | _, _, _ => []
+
+def vdot (a b : List Rat) : Rat := ((a.zip b).map (fun p => p.1 * p.2)).foldl (· + ·) 0
+def vsq (a b : List Rat) : Rat := ((a.zip b).map (fun p => (p.1 - p.2) * (p.1 - p.2))).foldl (· + ·) 0
+
+/-- appearance distance of two feature vectors under the configured metric:
+(within the threshold, the vote weight, within the guard band of the threshold) -/
+def featVote (cosine : Bool) (thr : Rat) (a b : List Rat) : Bool × Rat × Bool :=
+  if cosine then
+    let na := vdot a a; let nb := vdot b b
+    let c := if na * nb ≤ 0 then 0 else vdot a b / ratSqrt (na * nb)
+    (decide (thr ≤ c), 1 - c, decide (rabs (c - thr) ≤ 1 / 5000))
+  else
+    let d2 := vsq a b
+    (decide (d2 ≤ thr * thr), ratSqrt d2, decide (rabs (d2 - thr * thr) ≤ thr * thr / 2000))
+
+/-- The appearance gate of `VisualMetric::metric`, evaluated by the model for one scene of a call and
+compared with the implementation's distance table: a (detection, track) pair gets one feature vote
+per stored feature of the track that is within the threshold — provided the detection's feature may
+be used (area, quality, own-area share ≥ the *use* thresholds) and the track has collected at least
+`visual_minimal_track_length` features. Returns (K: counts and weights agree, O: every vote of the
+implementation is justified, flags). -/
+def visGate (st : St) (vecs : List (Nat × List Rat)) (sc e : Nat) (ds : List Det) (gsec : List (Rat × Option Rat))
+    (tbl : List (Nat × Nat × Option Rat × Option Rat)) : Bool × Bool × List String :=
+  let useOk : List Bool := (ds.zip gsec).map (fun (d, (area, share)) =>
+    decide (st.minArea ≤ area) && decide (st.qUse ≤ d.quality) &&
+    (match share with | some p => decide (st.ownUse ≤ p) | none => true))
+  let tracks := st.st.live.filter (fun t => t.scene == sc && decide (e - t.lastUpd ≤ st.cfg.maxIdle))
+  let vec (tok : Nat) : Option (List Rat) := (vecs.find? (fun p => p.1 == tok)).map (·.2)
+  let rows : List (Nat × Nat × Nat × Nat × Bool × Bool × List Rat × List Rat) :=
+    ((List.range ds.length).zip (ds.zip useOk)).flatMap (fun (i, d, u) =>
+      tracks.map (fun t =>
+        let votes : List (Bool × Rat × Bool) :=
+          if !u || d.feat == 0 || t.vcount < st.minLen then [] else
+          match vec d.feat with
+          | none => []
+          | some a => t.gallery.filterMap (fun g => if g.feat == 0 then none else (vec g.feat).map (featVote st.vCosine st.vThr a))
+        let expW := (votes.filter (·.1)).map (·.2.1)
+        let implW := tbl.filterMap (fun (f, tid, _, dd) => if f == i && tid == t.id then dd else none)
+        (i, t.id, expW.length, implW.length, votes.any (·.2.2), u && d.feat != 0 && decide (st.minLen ≤ t.vcount), expW, implW)))
+  let sortR (l : List Rat) : List Rat := l.mergeSort (fun a b => decide (a ≤ b))
+  -- with spatio-temporal constraints a pair may be incompatible for geometric reasons the token model does not see:
+  -- completeness is then demanded only of pairs the table mentions at all
+  let mentioned (i t : Nat) : Bool := tbl.any (fun (f, tid, _, _) => f == i && tid == t)
+  let k := rows.all (fun (i, t, ne, ni, band, _, ew, iw) =>
+    band || (st.constrained && !mentioned i t) ||
+    (ne == ni && ((sortR ew).zip (sortR iw)).all (fun (a, b) => close a b (1/2000) (1/5000))))
+  -- soundness: a vote of the implementation needs a usable feature, a long enough track and a stored feature within (or at) the threshold
+  let o := rows.all (fun (_, _, ne, ni, band, gateOk, _, _) => ni == 0 || (gateOk && (band || ni ≤ ne))) &&
+    tbl.all (fun (f, tid, _, dd) => dd.isNone || rows.any (fun r => r.1 == f && r.2.1 == tid))
+  (k, o,
+   (if k && o then [] else ["gate-rows:" ++ ";".intercalate (rows.map (fun (i, t, ne, ni, band, g, ew, iw) =>
+      s!"d{i}/t{t}/exp{ne}/impl{ni}/band{band}/gate{g}/{ew.map showRat}/{iw.map showRat}"))]) ++
+   flag (rows.any (fun r => r.2.2.1 > 0)) "appearance-votes" ++
+   flag (rows.any (fun r => r.2.2.2.2.1)) "visual-threshold-guard-band" ++
+   flag ((ds.zip useOk).any (fun (d, u) => d.feat != 0 && !u)) "feature-not-usable" ++
+   flag (tracks.any (fun t => t.vcount < st.minLen)) "track-below-minimal-length" ++
+   flag (rows.any (fun (_, _, ne, _, _, g, _, _) => g && ne == 0)) "all-features-over-threshold")
+
 def handleNew (st : St) (args : List String) : St × String :=
   match args with
   | kind :: sh :: _vsh :: hist :: mi :: rest =>
@@ -235,9 +320,19 @@ def handleNew (st : St) (args : List String) : St × String :=
       let qCollect := (rat? (vsec.getD 6 "")).getD 0
       let minArea := (rat? (vsec.getD 7 "")).getD 0
       let ownCollect := (rat? (vsec.getD 9 "")).getD 0
+      let vCosine := vsec.getD 0 "" == "cosine"
+      let constrained := match rest.takeWhile (· != "V") with
+        | "iou" :: _ :: _ :: n :: _ => n != "0"
+        | "maha" :: _ :: n :: _ => n != "0"
+        | _ => true
+      let vThr := (rat? (vsec.getD 1 "")).getD 0
+      let minLen := (vsec.getD 3 "1").toNat?.getD 1
+      let qUse := (rat? (vsec.getD 5 "")).getD 0
+      let ownUse := (rat? (vsec.getD 8 "")).getD 0
       ({ cfg := { maxIdle := mi, histLen := hist, batchIds := batch, thr := thr, visual := visual, maxObs := maxObs, minVotes := minVotes },
          st := {}, shards := sh, batch := batch, vshards := _vsh.toNat?.getD 1, visual := visual,
-         qCollect := qCollect, minArea := minArea, ownCollect := ownCollect },
+         qCollect := qCollect, minArea := minArea, ownCollect := ownCollect,
+         vCosine := vCosine, vThr := vThr, minLen := minLen, qUse := qUse, ownUse := ownUse, constrained := constrained },
        res true true [] s!"thr={thr} visual={visual}")
     | _, _, _ => (st, bad "new args")
   | _ => (st, bad "new")
@@ -248,7 +343,8 @@ def handlePredict (st : St) (args impl : List String) : St × String :=
     match nsT.toNat? >>= (fun ns => parseScenes st.visual ns st.nextTok rest) with
     | some (scenes, tok', []) =>
       -- per scene: table and records from the implementation
-      let rec gather : List (Nat × List Det) → List String → List (Nat × List Det × List Entry × List IRec × List VEntry) → Option (List (Nat × List Det × List Entry × List IRec × List VEntry))
+      let vecs := st.featVecs ++ (if st.visual then scanFeats (nsT.toNat?.getD 0) st.nextTok rest else [])
+      let rec gather : List (Nat × List Det) → List String → List (Nat × List Det × List Entry × List IRec × List VEntry × (Bool × Bool × List String)) → Option (List (Nat × List Det × List Entry × List IRec × List VEntry × (Bool × Bool × List String)))
         | [], _, acc => some acc.reverse
         | (sc, ds) :: more, ts, acc =>
           let tblPart := if st.batch then afterMarker "Q" ts |>.bind (fun r => match r with
@@ -267,7 +363,7 @@ def handlePredict (st : St) (args impl : List String) : St × String :=
             match findRecs impl impl.length with
             | none => none
             | some rs =>
-              if !st.visual then gather more (if st.batch then afterTbl else ts) ((sc, ds, toEntries tbl, rs, []) :: acc) else
+              if !st.visual then gather more (if st.batch then afterTbl else ts) ((sc, ds, toEntries tbl, rs, [], (true, true, [])) :: acc) else
               -- VisualSORT: per detection area / own-area share → the collect decision; entries with feature distances
               match parseG afterTbl with
               | none => none
@@ -277,7 +373,8 @@ def handlePredict (st : St) (args impl : List String) : St × String :=
                       (match share with | some p => decide (st.ownCollect ≤ p) | none => true) })
                 let ves : List VEntry := tbl.map (fun (f, t, a, dd) => { det := f, tid := t, w := a.map AssignX.quantise, f := dd })
                 let decided := visualDecided st.cfg ves
-                gather more (if st.batch then afterG else ts) ((sc, ds', positionalRest decided ves, rs, ves) :: acc)
+                let vg := visGate st vecs sc (epochOf (awStep st.cfg st.st) sc + 1) ds' gsec tbl
+                gather more (if st.batch then afterG else ts) ((sc, ds', positionalRest decided ves, rs, ves, vg) :: acc)
       match gather scenes impl [] with
       | none => (st, bad "predict: cannot parse implementation answer")
       | some gs =>
@@ -285,9 +382,12 @@ def handlePredict (st : St) (args impl : List String) : St × String :=
         -- picks are read off the implementation's records against the live set before the scene's step;
         -- scenes of one batch never share tracks, so the live set after the countdown serves all of them
         let gsV := gs
-        let gs := gsV.map (fun (sc, ds, es, rs, _) => (sc, ds, es, rs))
+        let gs := gsV.map (fun (sc, ds, es, rs, _, _) => (sc, ds, es, rs))
         let withPicks := gs.map (fun (sc, ds, es, rs) => (sc, ds, es, picksOf st1 rs, rs))
-        let withPicksV := gsV.map (fun (sc, ds, _, rs, ves) => (sc, ds, ves, picksOf st1 rs))
+        let withPicksV := gsV.map (fun (sc, ds, _, rs, ves, _) => (sc, ds, ves, picksOf st1 rs))
+        let vgK := gsV.all (fun (_, _, _, _, _, vg) => vg.1)
+        let vgO := gsV.all (fun (_, _, _, _, _, vg) => vg.2.1)
+        let vgFlags := (gsV.flatMap (fun (_, _, _, _, _, vg) => vg.2.2)).eraseDups
         let modelRes : Option (Tracker.St × List (Nat × List Rec)) :=
           if st.visual then
             (if st.batch then predictBatchV st.cfg st.st withPicksV
@@ -315,10 +415,10 @@ def handlePredict (st : St) (args impl : List String) : St × String :=
           flag (st.st.awCounter == 0) "gc-runs" ++ flag (gs.length ≥ 2) "multi-scene-batch" ++
           flag (gs.any (fun (_, ds, _, _) => ds.isEmpty)) "empty-call" ++
           flag (allRecs.any (·.vt)) "visual-attachment" ++
-          flag (gsV.any (fun (_, _, _, _, ves) => (visualDecided st.cfg ves).any (fun d => d.2.isNone))) "appearance-contest-lost" ++
-          flag (gsV.any (fun (_, _, es, _, ves) => !(visualDecided st.cfg ves).isEmpty && !es.isEmpty)) "appearance-and-positional" ++
+          flag (gsV.any (fun (_, _, _, _, ves, _) => (visualDecided st.cfg ves).any (fun d => d.2.isNone))) "appearance-contest-lost" ++ vgFlags ++ flag (!vgK) "visual-gate-mismatch" ++
+          flag (gsV.any (fun (_, _, es, _, ves, _) => !(visualDecided st.cfg ves).isEmpty && !es.isEmpty)) "appearance-and-positional" ++
           flag (st.st.live.any (fun t => t.gallery.length ≥ st.cfg.maxObs && st.cfg.visual)) "gallery-full" ++
-          flag (gsV.any (fun (_, ds, _, _, _) => ds.any (fun d => d.feat != 0 && !d.collectOk))) "feature-not-collectable" ++
+          flag (gsV.any (fun (_, ds, _, _, _, _) => ds.any (fun d => d.feat != 0 && !d.collectOk))) "feature-not-collectable" ++
           flag ((st.st.live.map (·.scene)).eraseDups.length ≥ 2) "multi-scene-store" ++
           flag (gs.any (fun (_, _, es, _) => !AssignX.small (es.map (fun x => { q := x.det + 1, t := x.tid, w := x.w })))) "large-assignment-dp"
         -- on small instances the dynamic programme must agree with the exhaustive enumeration
@@ -331,7 +431,7 @@ def handlePredict (st : St) (args impl : List String) : St × String :=
         | none =>
           -- the implementation's outcome is not an outcome of the model: the choice is not a valid
           -- (admissible, gated, one-to-one, maximum-weight, fresh-id) resolution for the distances at hand
-          ({ st with nextTok := tok' }, res false false (flags ++ ["invalid-choice"])
+          ({ st with nextTok := tok', featVecs := vecs }, res false false (flags ++ ["invalid-choice"])
             s!"choice not valid: picks={withPicks.map (fun (p : Nat × List Det × List Entry × List Pick × List IRec) => (p.1, p.2.2.1.map (fun (e : Entry) => (e.det, e.tid, e.w)), repr p.2.2.2.1))}")
         | some (st', mrecs) =>
           let kRecs := gs.all (fun (sc, _, _, rs) => match mrecs.find? (fun p => p.1 == sc) with
@@ -354,10 +454,10 @@ def handlePredict (st : St) (args impl : List String) : St × String :=
           let ties := gs.filterMap (fun (sc, _, es, _) =>
             let aes : List AssignX.Entry := es.map (fun x => { q := x.det + 1, t := x.tid, w := x.w })
             if AssignX.optCount aes st.cfg.thr > 1 then some sc else none) ++
-            gsV.filterMap (fun (sc, _, _, _, ves) => if st.visual && !visualUnique st.cfg ves then some sc else none)
-          ({ st with st := st', nextTok := tok', issued := (st.issued ++ ids).eraseDups, tieScenes := (st.tieScenes ++ ties).eraseDups },
-           res (kRecs && kDump) (oLen && oEcho && oDistinct && oFresh && oEpoch && kDump) flags
-             s!"kRecs={kRecs} kDump={kDump} o=[{oLen},{oEcho},{oDistinct},{oFresh},{oEpoch}] model={d}")
+            gsV.filterMap (fun (sc, _, _, _, ves, _) => if st.visual && !visualUnique st.cfg ves then some sc else none)
+          ({ st with st := st', nextTok := tok', issued := (st.issued ++ ids).eraseDups, tieScenes := (st.tieScenes ++ ties).eraseDups, featVecs := vecs },
+           res (kRecs && kDump && vgK) (oLen && oEcho && oDistinct && oFresh && oEpoch && kDump && vgO) flags
+             s!"kRecs={kRecs} kDump={kDump} visGate=[{vgK},{vgO}] o=[{oLen},{oEcho},{oDistinct},{oFresh},{oEpoch}] model={d}")
     | _ => (st, bad "predict scenes")
   | _ => (st, bad "predict")
 
